@@ -80,13 +80,13 @@ TABLE = {
             NOTE_COMMON + "float sqrt exact on perfect squares below 2^52 (assumed).", "DESIGN.md §7 C20"),
 }
 
-GEN = ' GENERATED KERNELS (since build round 3): `_step_1.._step_5`, `Wigner.H`, the coefficient-table formulas of `Wigner.__init__`, `_fill_wigner_d`, `_fill_wigner_D`, `_fill_sYlm` and `_evaluate_Horner` are re-translated from the Python text into Lean on every run (vlib/py2lean_kern.py -> Gen/HKern, Gen/FillKern, Gen/HornerKern: same statements, loop ranges, flat index expressions and operation order, on a flat memory, generic over the arithmetic), executed at Float and compared bit for bit with the numba kernels, and PROVED to compute what the coordinate model computes for every size, arithmetic and initial memory: GenH.genH_sim / genH_refines (generated Wigner.H refines Spec.valW), GenFill.gen_d_entry / gen_D_entry / gen_Y_entry (= Model.dEntry / DEntry / sYlmEntry), GenHorner.gen_evaluate_row (= Model.evaluateHornerK). The theorems about the model therefore hold for the code as written now, and a change to one of these kernels changes the statement that has to be re-proved. '
+GEN = ' GENERATED KERNELS (since build round 3): `_step_1.._step_5`, `Wigner.H`, the coefficient-table formulas of `Wigner.__init__`, `_fill_wigner_d`, `_fill_wigner_D`, `_fill_sYlm`, `_evaluate_Horner`, `_rotate_Horner` and `_complex_powers` are re-translated from the Python text into Lean on every run (vlib/py2lean_kern.py -> Gen/HKern, Gen/FillKern, Gen/HornerKern, Gen/RotHKern, Gen/CPowKern: same statements, loop ranges, flat index expressions and operation order, on a flat memory, generic over the arithmetic), executed at Float and compared bit for bit with the numba kernels, and PROVED to compute what the coordinate model computes for every size, arithmetic and initial memory: GenH.genH_sim / genH_refines (generated Wigner.H refines Spec.valW), GenFill.gen_d_entry / gen_D_entry / gen_Y_entry (= Model.dEntry / DEntry / sYlmEntry), GenHorner.gen_evaluate_row (= Model.evaluateHornerK), GenRot.gen_rotate_row (= Model.rotateHornerEntry), GenCPow.gen_cpow_cell (= Model.cpowers). The theorems about the model therefore hold for the code as written now, and a change to one of these kernels changes the statement that has to be re-proved. '
 
 TABLE["C14"] = (TABLE["C14"][0] + " + kernel re-translated from the Python text every run and proved to compute the model's array",
                 TABLE["C14"][1] + " GENERATED KERNEL: `_complex_powers` is re-translated from the Python text on every run (Gen/CPowKern.lean: the quadrant `while` loop with a fuel parameter, the recurrence through the output row, the clock), compared bit for bit with the numba kernel, and proved to leave entry m of Model.cpowers in cell m for every arithmetic, M and previous content of the output (GenCPow.gen_cpow_cell); hence it stores z^m over exact reals (gen_cpow_exact) and literally 1+0i in cell 0 (gen_cpow_entry0). ",
                 TABLE["C14"][2], TABLE["C14"][3])
 
-for _pid in ("C01", "C02", "C03", "C07", "C08", "C09", "C15", "C17"):
+for _pid in ("C01", "C02", "C03", "C04", "C07", "C08", "C09", "C15", "C17", "C19"):
     _t = TABLE[_pid]
     TABLE[_pid] = (_t[0] + " + kernels re-translated from the Python text every run and proved to simulate the model", _t[1] + GEN, _t[2], _t[3])
 
